@@ -61,6 +61,16 @@ EST_PROGRAMS = {
     "two_channels_retarget": dict(
         chans=[("g", "ryd_glob", None), ("l", "ryd_loc", "q0")],
         pre=[["add", "l", "A", False], ["delay", "l"], ["target", "l", "q1"], ["add", "g", "B", True]], target="l"),
+    # the new pulse goes to the DMM (it targets every atom of its map, basis ground-rydberg)
+    "dmm_after_post_shift": dict(
+        chans=[("l", "ryd_loc", "q2")], dmm=True,
+        pre=[["add", "l", "A", True]], target="dmm_0"),
+    "dmm_after_shift": dict(
+        chans=[("l", "ryd_loc", "q1")], dmm=True,
+        pre=[["add", "l", "A", False], ["shift", ["q1"], "ground-rydberg"]], target="dmm_0"),
+    "dmm_second_pulse": dict(
+        chans=[("l", "ryd_loc", "q1")], dmm=True,
+        pre=[["add_dmm"], ["add", "l", "A", True]], target="dmm_0"),
     "other_basis": dict(
         chans=[("a", "ram_glob", None), ("b", "ram_loc", "q0")],
         pre=[["add", "a", "A", True], ["shift", ["q0"], "digital"], ["add", "b", "B", False]], target="b"),
@@ -77,9 +87,15 @@ def h_estimate(shape):
         seq = l2.new_seq("virt")
         for (n, cid, it) in P["chans"]:
             seq.declare_channel(n, cid, **({"initial_target": it} if it else {}))
+        if P.get("dmm"):
+            seq.config_detuning_map(seq.get_register().define_detuning_map({"q0": 0.5, "q1": 1.0, "q2": 0.0}), "dmm_0")
         try:
             for i, op in enumerate(P["pre"]):
-                if op[0] == "add":
+                if op[0] == "add_dmm":
+                    from pulser.waveforms import ConstantWaveform
+
+                    seq.add_dmm_detuning(ConstantWaveform(100, -1.0), "dmm_0")  # concrete length: keeps the path count down
+                elif op[0] == "add":
                     ph = inp.phase("ph%d" % i, 360, -1, 1)
                     post = inp.phase("post%d" % i, 360, -1, 1) if op[3] else 0.0
                     seq.add(Pulse.ConstantPulse(inp.mult("d%d" % i, 4, 8, 400), 1.0, 0.0, ph, post), op[1])
@@ -92,9 +108,17 @@ def h_estimate(shape):
         except l2.REFUSALS:
             raise core.Infeasible()
         ch = P["target"]
-        new = Pulse.ConstantPulse(inp.mult("dn", 4, 8, 400), 1.0, 0.0, inp.phase("phn", 360, -1, 1))
+        if P.get("dmm"):
+            from pulser.waveforms import ConstantWaveform
+
+            new_wf = ConstantWaveform(inp.mult("dn", 4, 8, 400), -2.0)
+            new = Pulse.ConstantAmplitude(0, new_wf, 0)
+        else:
+            new = Pulse.ConstantPulse(inp.mult("dn", 4, 8, 400), 1.0, 0.0, inp.phase("phn", 360, -1, 1))
         before = l2.snapshot(seq)
         proto = shape["protocol"]
+        basis = seq.declared_channels[ch].basis
+        barrier = smax([seq._basis_ref[basis][q].phase.last_time for q in seq._last(ch).targets])
         try:
             est = seq.estimate_added_delay(new, ch, proto)
         except l2.REFUSALS:
@@ -102,7 +126,10 @@ def h_estimate(shape):
         obs = [("c03:estimate_is_read_only", l2.snap_equal(before, l2.snapshot(seq)))]
         t0 = seq._schedule[ch][-1].tf
         try:
-            seq.add(new, ch, proto)
+            if P.get("dmm"):
+                seq.add_dmm_detuning(new_wf, ch, proto)
+            else:
+                seq.add(new, ch, proto)
             added = True
         except l2.REFUSALS:
             added = False
@@ -110,6 +137,16 @@ def h_estimate(shape):
         if added and est is not None:
             real = seq._schedule[ch][-1].ti - t0
             obs.append(("c03:estimate_equals_inserted_delay", est == real))
+        if added:
+            ti = seq._schedule[ch][-1].ti
+            # the phase-shift barrier of the targets (time of their last reference change) binds every protocol
+            obs.append(("c03:not_before_phase_barrier", ti >= barrier))
+            if proto == "no-delay":
+                chobj = seq.declared_channels[ch]
+                need = barrier - t0
+                delta = smax(need, chobj.min_duration)
+                delta = delta + ((-delta) % chobj.clock_period)
+                obs.append(("c03:nodelay_starts_at_end_or_barrier", ti == core.ITE(need > 0, t0 + delta, t0)))
         return obs
 
     return h
